@@ -2451,7 +2451,10 @@ class TLSConnection(TLSRecordLayer):
             self._recordLayer.encryptThenMAC = True
 
         if settings.useExtendedMasterSecret:
-            if clientHello.getExtension(ExtensionType.extended_master_secret):
+            # extended master secret is not defined for SSLv3 (RFC 7627)
+            if clientHello.getExtension(
+                    ExtensionType.extended_master_secret) and \
+                    version > (3, 0):
                 extensions.append(TLSExtension().create(ExtensionType.
                                                         extended_master_secret,
                                                         bytearray(0)))
